@@ -53,6 +53,9 @@ type UDPConn struct {
 	// ReadSeqs/ReadAts: scheduler step and virtual time of each ReadLog entry.
 	ReadSeqs []int
 	ReadAts  []time.Duration
+	// ReadNs: the bytes each ReadLog entry delivered into the reader's buffer (a
+	// datagram longer than the buffer is cut, as by recvfrom).
+	ReadNs []int
 	// LastSent is the ledger record of the most recent WriteTo on this socket.
 	LastSent *DgramRec
 	// DlLog lists the read deadlines set on the socket, in order.
@@ -187,6 +190,7 @@ func (c *UDPConn) ReadFromUDP(p []byte) (int, *net.UDPAddr, error) {
 			c.w.EvSeq++
 			c.ReadSeqs = append(c.ReadSeqs, c.w.EvSeq)
 			c.ReadAts = append(c.ReadAts, simrt.Elapsed())
+			c.ReadNs = append(c.ReadNs, n)
 			simrt.Log("udp:read", int64(c.ID), int64(n))
 			from := *d.from
 			return n, &from, nil
@@ -224,6 +228,7 @@ func (c *UDPConn) WriteToUDP(p []byte, ua *net.UDPAddr) (int, error) {
 	if len(p) > 65507 {
 		return 0, opErr("write", "udp", ua, syscall.EMSGSIZE)
 	}
+	c.LastSent = nil
 	if ua.Port == 0 {
 		// Linux refuses to send to port 0
 		return 0, opErr("write", "udp", ua, syscall.EINVAL)
